@@ -11,6 +11,7 @@ from vf import gen, chain, evo
 from vf.props.c03 import arith_instr
 from vf.props.c06 import Interp06
 from vf.props.c08 import build_ops
+from vf.props import c13_tree
 
 OBSERVERS = ["expectation", "expectations", "e_occupations", "ph_occupations", "calc_1site_rdm", "calc_2site_rdm", "calc_entropy_bond",
              "calc_bond_singular_values", "todense", "dump", "mp_norm", "norm", "distance", "dot", "angle", "calc_edof_rdm", "str"]
@@ -346,21 +347,28 @@ class C13(Prop):
     assumptions = ["the represented object is todense() times the scalar prefactor; gauge changes of inputs are allowed",
                    "configuration attributes (evolve_config, compress_config) are not part of the represented state",
                    "the optimiser's documented overwrite of its guess is exercised on a copy; OFS re-ordering is C17's subject",
-                   "tree objects are covered by the input-unchanged checks of C11/C12"]
+                   "tree half (1 case in 4, vf/props/c13_tree.py): TTNS / TTNO histories on generated trees (arithmetic, gauge moves, observers, "
+                   "truncation of copies, twins, evolution with four schemes, in-place mutations of tensors / labels / prefactor / "
+                   "normalisation); after every instruction every live register must still represent its model (independent contraction "
+                   "of the raw node tensors x prefactor; TTNO dense matrix) to 1e-10; scheme correctness itself is C12's subject"]
 
     known_matchers = {
         "F24": lambda spec, sig, msg: sig == "shared_arrays.conj_of_real_object",
         "F27": lambda spec, sig, msg: sig == "observe.distance.common_prefactor_ignored",
+        "F4": c13_tree.f4_matcher,
     }
 
     def budget(self, tier):
         return dict(examples=320, shards=16) if tier == "quick" else dict(examples=8000, shards=16)
 
     def strategy(self, tier):
-        return cases(tier)
+        # three chain histories for every tree history
+        return st.integers(0, 3).flatmap(lambda k: c13_tree.tree_cases(tier) if k == 0 else cases(tier))
 
     def run_case(self, case):
         r = Result()
+        if case.get("kind") == "tree":
+            return c13_tree.run_tree_case(case, r)
         it = Interp13(case["model"], r, None)
         it.ham_terms = case["ham"]
         it.run(case["prog"])
@@ -370,6 +378,9 @@ class C13(Prop):
         return r
 
     def sample_view(self, case):
+        if case.get("kind") == "tree":
+            return {"kind": "tree", "sites": [s["k"] for s in case["tree"]["model"]["sites"]], "topo": case["tree"]["topo"],
+                    "prog": [{k: v for k, v in i.items() if k != "terms"} for i in case["prog"]]}
         return {"sites": [s["k"] for s in case["model"]["sites"]], "qnmode": case["model"].get("qnmode"),
                 "prog": [{k: v for k, v in i.items() if k not in ("terms", "g")} for i in case["prog"]]}
 
